@@ -22,7 +22,6 @@ Definition E_UNKNOWN : Z := 4.
 Definition P_FNSET_INDEX : Z := 151.   (* bitmap[delta_n / 32], index 8 of [i32; 8] *)
 Definition P_SNSET_NEW : Z := 28.      (* sequence_number - base overflows / index in new() *)
 Definition P_FNSET_NEW : Z := 121.     (* fragment_number - base underflows / index in new() *)
-Definition P_SNSET_ITER : Z := 63.     (* set(): base + delta_n as i64 overflows *)
 Definition P_FNSET_ITER : Z := 178.    (* set(): base + delta_n as u32 overflows *)
 
 (* modelled allocation sizes (bytes) *)
@@ -131,7 +130,8 @@ Fixpoint fnset_new_loop (base : Z) (members : list Z) (nb : Z) (ws : list Z) : r
 Definition fnset_new (base : Z) (members : list Z) : res fnset :=
   r <- fnset_new_loop base members 0 zero_map ;; Ok (mk_fnset base (fst r) (snd r)).
 
-(* the set() iterators: members in increasing order; `base + delta` is a checked add *)
+(* the FragmentNumberSet set() iterator: members in increasing order; `base + delta` is an
+   overflow-checked add (debug profile) *)
 Fixpoint members_from (maxv : Z) (site : Z) (base : Z) (ws : list Z) (n : nat) (i : Z) : res (list Z) :=
   match n with
   | O => Ok []
@@ -141,10 +141,22 @@ Fixpoint members_from (maxv : Z) (site : Z) (base : Z) (ws : list Z) (n : nat) (
         else r <- members_from maxv site base ws k (i + 1) ;; Ok (base + i :: r)
       else members_from maxv site base ws k (i + 1)
   end.
+(* SequenceNumberSet::set() after fix 6f37365: `base.checked_add(delta).filter(|sn| *sn < i64::MAX)`
+   returns None at the first set bit whose member would be >= i64::MAX, which ends the
+   iteration (collect / for stop at the first None); no panic *)
+Fixpoint snset_members_from (base : Z) (ws : list Z) (n : nat) (i : Z) : res (list Z) :=
+  match n with
+  | O => Ok []
+  | S k =>
+      if bit_set ws i then
+        if i64_max <=? base + i then Ok []
+        else r <- snset_members_from base ws k (i + 1) ;; Ok (base + i :: r)
+      else snset_members_from base ws k (i + 1)
+  end.
 (* num_bits <= 256 for every set the decoder or new() can produce; the iterator would
    index out of the bitmap beyond that, which cannot happen for such values *)
 Definition snset_members (s : snset) : res (list Z) :=
-  members_from i64_max P_SNSET_ITER (ss_base s) (ss_map s) (Z.to_nat (ss_bits s)) 0.
+  snset_members_from (ss_base s) (ss_map s) (Z.to_nat (ss_bits s)) 0.
 Definition fnset_members (s : fnset) : res (list Z) :=
   members_from u32_max P_FNSET_ITER (fs_base s) (fs_map s) (Z.to_nat (fs_bits s)) 0.
 
@@ -606,9 +618,12 @@ Definition arr (n : nat) (l : list Z) : Prop := length l = n /\ bytes_ok l.
 Definition arrb (n : nat) (l : list Z) : bool := Nat.eqb (length l) n && bytes_okb l.
 Definition in_u16b (z : Z) : bool := (0 <=? z) && (z <=? 65535).
 
-(* set validity: every member within base .. base+255 (what new() accepts) *)
+(* set validity: every member within base .. base+255 (what new() accepts); a sequence number
+   set member is below i64::MAX (i64::MAX is not a usable sequence number: the set() iterator
+   ends there, and every consumer adds 1) *)
 Definition valid_snsetb (s : nset) : bool :=
-  in_i64b (ns_base s) && forallb (fun m => in_i64b m && (ns_base s <=? m) && (m <? ns_base s + 256)) (ns_members s).
+  in_i64b (ns_base s) &&
+  forallb (fun m => in_i64b m && (m <? i64_max) && (ns_base s <=? m) && (m <? ns_base s + 256)) (ns_members s).
 Definition valid_fnsetb (s : nset) : bool :=
   in_u32b (ns_base s) && forallb (fun m => in_u32b m && (ns_base s <=? m) && (m <? ns_base s + 256)) (ns_members s).
 (* a parameter: i16 id other than the sentinel, byte value *)
